@@ -409,3 +409,40 @@ func H_delete_self_via_symlink() {
 		verifReach("delete-self-parent-reports")
 	}
 }
+
+// C11/C03: the two halves of a move arrive in two separate reads.
+func H_rename_two_reads() {
+	L := 16
+	verifKReset()
+	w := verifNewInotify(2)
+	verifSetupTable(w, 2)
+	n0, n1 := verifInt("n0"), verifInt("n1")
+	verifAssume(n0 >= 16 && n0 <= 65536 && n1 >= 16 && n1 <= 65536)
+	verifK.script[0], verifK.script[1] = verifRead{n: n0}, verifRead{n: n1}
+	verifK.nScript = 2
+	var r [2]verifRec
+	var names [2]string
+	verifFillBuffer = func(i int, b []byte, n int) {
+		verifConstrainRecords(b, n, 1, L, false)
+		r[i] = verifRecs[0]
+		names[i] = verifBufString(b, 16, r[i].nl)
+		isdir := r[i].mask & unix.IN_ISDIR
+		if i == 0 {
+			verifAssume(r[0].mask == unix.IN_MOVED_FROM|isdir && r[0].cookie != 0 && r[0].ln > 0)
+			verifAssume(uint32(r[0].wd) == verifTable[0].wd)
+		} else {
+			verifAssume(r[1].mask == unix.IN_MOVED_TO|isdir && r[1].cookie == r[0].cookie && r[1].ln > 0)
+			verifAssume(uint32(r[1].wd) == verifTable[0].wd)
+		}
+	}
+	w.readEvents()
+	e1, ok1 := <-w.Events
+	e2, ok2 := <-w.Events
+	verifAssert(ok1 && ok2, "both halves are delivered")
+	verifAssert(e1.Op == Rename && e1.Name == "/t/"+names[0], "Rename of the old name")
+	verifAssert(e2.Op == Create && e2.Name == "/t/"+names[1], "Create of the new name")
+	verifAssert(e2.renamedFrom == e1.Name, "the Create identifies the old name also when the two halves arrive in separate reads")
+	_, more := <-w.Events
+	verifAssert(!more, "nothing else")
+	verifReach("rename-two-reads")
+}
